@@ -25,7 +25,8 @@ func (c13) Info() core.Info {
 			"prefix history, with or without a previously fetched SearchParams()). A sequence of in-place operations (nine setters, SearchParams Append/Delete/Set/Sort/SortAbsolute/Iterate) " +
 			"is applied to one side, then another sequence to the other side. After each phase every getter and the parameter list (String + GetAll of all names used) of the UNTOUCHED " +
 			"side must equal its value before the phase, and the OPERATED side must equal a control - an independently constructed twin (fresh parse of the same strings, same operations) " +
-			"that shares nothing by construction. Non-trivial: both values exist and at least one operation ran; distinct by (strings, histories, variant).",
+			"that shares nothing by construction. Every phase ends with a shuffled epilogue of mutations touching every component that can be shared by reference; half of the cases use a reporting-mode parser, " +
+			"where ValidationErrors() of the untouched side must not change either. Non-trivial: both values exist and at least one operation ran; distinct by (strings, histories, variant).",
 		Assumptions: []string{"behavioural verdict only: sharing of immutable strings is not a violation", "default parser"},
 		MinDistinct: map[string]int{"quick": 100000, "thorough": 1000000},
 	}
